@@ -136,6 +136,17 @@ func init() {
 				return true
 			})
 		}
+		rc := mustFunc("internal/security/manager.go", "ServiceCore", "RegisterClient")
+		var unreg []string
+		ast.Inspect(rc.Body, func(n ast.Node) bool {
+			if is, ok := n.(*ast.IfStmt); ok && oneLine(str(is.Cond)) == "clientInfo.Deleted" {
+				for _, b := range is.Body.List {
+					unreg = append(unreg, oneLine(str(b)))
+				}
+			}
+			return true
+		})
+		o.p("def unregisterCalls : List String := %s\n", leanList(unreg))
 		o.p("def aclsWriters : List String := %s\ndef clientsWriters : List String := %s\n", leanList(aw), leanList(cw))
 		o.write(outDir, "Acl")
 	}
